@@ -33,7 +33,7 @@ THEOREMS = [
 ]
 BUDGET = {"quick": 900, "thorough": 3600}
 # closed mode (string-level oracles instantiated by the C01 model): theorems of lean/HedVerif/Props/Closed.lean
-EXTRA_AUDIT = ("HedVerif.Props.Closed", [
+EXTRA_AUDIT = [("HedVerif.Props.Closed", [
     "HedVerif.C07.eval_closed",
     "HedVerif.C07.total_closed",
     "HedVerif.C07.labels_closed",
@@ -44,7 +44,20 @@ EXTRA_AUDIT = ("HedVerif.Props.Closed", [
     "HedVerif.C07.unbalanced_cell_reported_closed",
     "HedVerif.C07.shuffle_closed",
     "HedVerif.C07.pipeline_example_closed",
-])
+    "HedVerif.C07.cells_eq_closed",
+    "HedVerif.C07.total_closed_cells",
+    "HedVerif.C07.cell_errors_kept_closed_cells",
+    "HedVerif.C07.eval_closed_cells",
+]), ("HedVerif.Props.ClosedRaw", [   # raw closed mode: C06 assembly o C07 file layer o C01 strings, from sidecar + table
+    "HedVerif.C07.raw_is_composition",
+    "HedVerif.C07.raw_rows_order",
+    "HedVerif.C07.raw_series_is_assembly",
+    "HedVerif.C07.total_closed_raw",
+    "HedVerif.C07.labels_closed_raw",
+    "HedVerif.C07.cell_issue_closed_raw",
+    "HedVerif.C07.cell_errors_kept_closed_raw",
+    "HedVerif.C07.pipeline_example_closed_raw",
+])]
 
 SIG_MERGED = "C07-merged-row-label"
 UNORDERED = "ONSETS_UNORDERED:ONSETS_UNORDERED"
@@ -865,7 +878,10 @@ def replay(ctx, rec):
     if not case:
         print("nothing to replay (obligation-only record):", rec.get("broken_obligations"))
         return
-    if case.get("closed"):
+    if case.get("closed") == "raw":
+        from harness.props import closed_c07
+        closed_c07.run_closed(ctx, pairs=[case["pair"]])
+    elif case.get("closed"):
         from harness.props import closed_c07
         closed_c07.run_closed(ctx, specs=[case["spec"]])
     elif case.get("concat"):
